@@ -326,6 +326,7 @@ def run(P, C, tier):
     except mir.MissingAnchor as e:
         C.anchor_missing("R6", "set_need_update", e)
     r7_cursor_writes(P, C)
+    r8_window_per_chain(P, C)
 
 
 READ_T = re.compile(r"\b(?:FROM|JOIN)\s+([A-Za-z_][A-Za-z0-9_]*)", re.I)
@@ -405,3 +406,70 @@ def r7_cursor_writes(P, C):
                  "rows of %s are stepped by this loop; writes to the same table inside the loop: %s" % (sorted(reads), bad or "none"))
     C.floor("R7", "cursors over the tables of the log computation", n, 8)
 
+
+
+def _strip_sql_comments(t):
+    return re.sub(r"--[^\n]*", "", t)
+
+
+def _paren_segments(t):
+    """[(depth, text)] of every parenthesised segment, innermost first; nested segments are blanked in their parents"""
+    out = []
+    stack = []
+    for i, c in enumerate(t):
+        if c == "(":
+            stack.append(i)
+        elif c == ")" and stack:
+            j = stack.pop()
+            out.append((len(stack) + 1, j, i))
+    segs = []
+    for depth, j, i in out:
+        inner = t[j + 1:i]
+        # blank nested parentheses
+        flat = ""
+        d = 0
+        for c in inner:
+            if c == "(":
+                d += 1
+            if d == 0:
+                flat += c
+            if c == ")":
+                d -= 1
+        segs.append((depth, flat))
+    return segs
+
+
+def r8_window_per_chain(P, C):
+    C.rule("R8", "the history hash chains the days of ONE (room, entity): in the statement that selects the log rows to recompute, every sub-select over _daily_log "
+                 "(the predecessor day, the first marked day) is tied to the outer row by room_id AND entity (or groups by both), and every join with it matches both; "
+                 "a predecessor looked up by room only picks another entity's day, the chain restarts there and the history hash depends on which days were marked together")
+    try:
+        cp = P.body("daily_log::DailyLogsUpdate::compute")
+    except mir.MissingAnchor as e:
+        C.anchor_missing("R8", "compute", e)
+        return
+    n = 0
+    for bi, callee, text, holes, term in sql.statements(cp):
+        if not text or not re.search(r"^\s*(WITH\b.*?\)\s*)?SELECT\b", _strip_sql_comments(text), re.I | re.S) or "_daily_log" not in text:
+            continue
+        t = _strip_sql_comments(text)
+        if not re.search(r"need_recompute", t):
+            continue
+        eq = lambda col, seg: re.search(r"(\w+\.)?%s\s*=\s*(\w+\.)?%s\b" % (col, col), seg) is not None
+        subs = [(d, seg) for d, seg in _paren_segments(t) if re.match(r"\s*SELECT\b", seg, re.I) and re.search(r"\bFROM\s+_daily_log\b", seg, re.I)]
+        for k, (d, seg) in enumerate(subs):
+            n += 1
+            grouped = re.search(r"GROUP\s+BY\s+(\w+\.)?room_id\s*,\s*(\w+\.)?entity\b", seg, re.I) is not None
+            ok = grouped or (eq("room_id", seg) and eq("entity", seg))
+            C.ob("R8", "sub-select-per-chain#%d" % k, ok, cp.loc(bi), "`%s`: tied to the outer row by room_id=%s entity=%s, grouped by both=%s" % (
+                sql.norm(seg)[:70], eq("room_id", seg), eq("entity", seg), grouped))
+        # joins
+        flat = "".join(c for c in t)
+        for k, m in enumerate(re.finditer(r"\bJOIN\b(.*?)\bON\b(.*?)(?=\bWHERE\b|\bJOIN\b|\bORDER\b|$)", t, re.I | re.S)):
+            n += 1
+            on = m.group(2)
+            ok = eq("room_id", on) and eq("entity", on)
+            C.ob("R8", "join-per-chain#%d" % k, ok, cp.loc(bi), "JOIN %s ON %s" % (sql.norm(m.group(1))[:30], sql.norm(on)[:70]))
+        C.ob("R8", "window-ordered-by-chain", re.search(r"ORDER\s+BY\s+(\w+\.)?room_id\s*,\s*(\w+\.)?entity\s*,\s*(\w+\.)?date\s*$", t.strip(), re.I) is not None, cp.loc(bi),
+             "rows are delivered chain by chain in date order (ORDER BY room_id, entity, date)")
+    C.floor("R8", "sub-selects and joins of the window statement", n, 3)
